@@ -12,6 +12,8 @@ import (
 	"net"
 	"net/http"
 	"net/http/httptest"
+	"os"
+	"sort"
 	"strconv"
 	"strings"
 
@@ -36,8 +38,11 @@ func randOp(r *rand.Rand, n, subs int) string {
 	i := 1 + r.Intn(n)
 	s := 1 + r.Intn(subs)
 	switch x := r.Intn(100); {
-	case x < 36:
+	case x < 30:
 		return fmt.Sprintf("alloc %d s%d", i, s)
+	case x < 36:
+		// 2-4 concurrent requests of one subscriber entering at one node
+		return fmt.Sprintf("burst %d s%d %d", i, s, 2+r.Intn(3))
 	case x < 56:
 		return fmt.Sprintf("release %d s%d", i, s)
 	case x < 68:
@@ -61,12 +66,44 @@ func tail(n, subs int) []string {
 		out = append(out, fmt.Sprintf("get %d s%d", 1+s%n, s), fmt.Sprintf("release 1 s%d", s))
 	}
 	for i := 1; i <= n; i++ {
-		out = append(out, fmt.Sprintf("stats %d", i))
+		out = append(out, fmt.Sprintf("stats %d", i), fmt.Sprintf("audit %d", i))
 	}
 	return out
 }
 
+// stress: burst-heavy sequences without health changes (POOL_STRESS=1; run on a binary built with -race)
+func stress(r *rand.Rand, tier string, emit func([]string)) {
+	cnt := 120
+	if tier == "thorough" {
+		cnt = 1200
+	}
+	for c := 0; c < cnt; c++ {
+		g := hx.Pick(r, geos)
+		n := 1 + r.Intn(3)
+		subs := 2 + r.Intn(6)
+		seq := []string{fmt.Sprintf("new %x %d %x %d", g.Net, g.Ones, g.Gw, n)}
+		for j, m := 0, 6+r.Intn(20); j < m; j++ {
+			i, s := 1+r.Intn(n), 1+r.Intn(subs)
+			switch x := r.Intn(10); {
+			case x < 6:
+				seq = append(seq, fmt.Sprintf("burst %d s%d %d", i, s, 2+r.Intn(5)))
+			case x < 8:
+				seq = append(seq, fmt.Sprintf("release %d s%d", i, s))
+			case x < 9:
+				seq = append(seq, fmt.Sprintf("stats %d", i))
+			default:
+				seq = append(seq, fmt.Sprintf("audit %d", i))
+			}
+		}
+		emit(append(seq, tail(n, subs)...))
+	}
+}
+
 func (comp) Gen(r *rand.Rand, tier string, emit func([]string)) {
+	if os.Getenv("POOL_STRESS") != "" {
+		stress(r, tier, emit)
+		return
+	}
 	nRand, nCalm := 700, 200
 	if tier == "thorough" {
 		nRand, nCalm = 14000, 4000
@@ -102,6 +139,7 @@ type run struct {
 	pools map[int]*pool.PeerPool
 	muxes map[string]*http.ServeMux
 	n     int
+	total int // addresses every node's local pool was built with
 }
 
 func (comp) NewRun() hx.Run {
@@ -163,6 +201,7 @@ func (r *run) Do(op string) string {
 			r.muxes[nodeID(i)] = mux
 		}
 		r.n = n
+		r.total = r.pools[1].Stats().Total
 		return "ok"
 	}
 	if len(f) < 2 {
@@ -198,6 +237,46 @@ func (r *run) Do(op string) string {
 			return fmt.Sprintf("error answered by %s for %s, routed to %s", resp.NodeID, resp.SubscriberID, served)
 		}
 		return fmt.Sprintf("ok %s served=%s ranked=%s", flx.Hex4(net.ParseIP(resp.IP)), served, rk)
+	case f[0] == "burst" && len(f) == 4 && subOK:
+		// k concurrent Allocate calls entering at node i; they are parked at the lock of the node that
+		// serves them and released together
+		k, err := strconv.Atoi(f[3])
+		if err != nil || k < 1 || k > 64 {
+			return "badop"
+		}
+		target := r.pools[i]
+		for j, q := range r.pools {
+			if nodeID(j) == p.HealthyOwnerForVerif(sub) {
+				target = q
+			}
+		}
+		answers := flx.Burst(k, target.HoldLocalPoolForVerif, func() string { return r.Do(fmt.Sprintf("alloc %d %s", i, sub)) })
+		// all answers carry the same served=/ranked= tail; they may differ in the address
+		set := map[string]bool{}
+		tailOf := ""
+		for _, a := range answers {
+			w := strings.Fields(a)
+			if len(w) < 3 || (w[0] != "ok" && w[0] != "exhausted") {
+				return "error burst answer " + a
+			}
+			if w[0] == "ok" {
+				set[w[1]] = true
+			} else {
+				set["exhausted"] = true
+			}
+			tailOf = strings.Join(w[len(w)-2:], " ")
+		}
+		if len(set) == 1 {
+			return answers[0]
+		}
+		var l []string
+		for a := range set {
+			l = append(l, a)
+		}
+		sort.Strings(l)
+		return "mixed " + strings.Join(l, ",") + " " + tailOf
+	case f[0] == "audit" && len(f) == 2:
+		return flx.AuditLocal(p, r.total)
 	case f[0] == "release" && len(f) == 3 && subOK:
 		served := nodeNum(p.HealthyOwnerForVerif(sub))
 		rk := r.ranked(p, sub)
